@@ -28,6 +28,31 @@ def simulate_diffusion_with_brownian_increments(scaled_stddev, brownian_incremen
     return np.cumsum(diffs)
 
 
+def refine_up_to_maturity(build_finer_grid, maturity, jump_times, *jump_values, empty_shape=()):
+    """Apply the maximum-time-step refinement to the whole time grid: to the jump times AND to the step from the
+    last jump (from 0 for a path without jumps) to the maturity.  The maturity is appended with the last value
+    (0 without jumps), refined together with the jump times and removed again: the callers add t=0 and the maturity.
+
+    :param build_finer_grid: bound refinement function (jump_times, *jump_values) -> (times, *values)
+    :param maturity: end of the path
+    :param jump_times: jump times, possibly empty
+    :param jump_values: one or several arrays of path values at the jump times (time on the last axis)
+    :param empty_shape: leading shape of the values of a path without jumps (() for one dimension, (d,) for d)
+    """
+    times = np.append(jump_times, maturity)
+    padded = []
+    for values in jump_values:
+        if jump_times.size:
+            values = np.asarray(values, dtype=float)
+            last = values[..., -1:]
+        else:
+            values = np.zeros(shape=empty_shape + (0,))
+            last = np.zeros(shape=empty_shape + (1,))
+        padded.append(np.concatenate((values, last), axis=-1))
+    refined = build_finer_grid(times, *padded)
+    return (refined[0][:-1],) + tuple(values[..., :-1] for values in refined[1:])
+
+
 class LevyProcess(Process):
     """Defines a simulation process for jump models (with a diffusive part and a pure jump part)
 
@@ -307,8 +332,6 @@ class SimulationMaximumStep(SimulationWithJumpTimes):
 
     def simulate_jumps(self):
         jump_times, jump_values = super().simulate_jumps()
-
-        if jump_times.size == 0:
-            return jump_times, jump_values
-
-        return self.build_finer_grid(jump_times, jump_values)
+        return refine_up_to_maturity(
+            self.build_finer_grid, self._maturity, jump_times, jump_values
+        )
